@@ -75,6 +75,29 @@ CHECKS.update({
              "Convergence orders follow by cited theorems; the limit itself is not mechanised.",
         technique=T_SYM + " (QF_NRA identities with unit factors)"),
 })
+T_B = "bounded evaluation of sidecar contracts on the real (pandas-bound) code against an independent oracle"
+B_NOTE = ("Exploration level: the contracts are EVALUATED on a bounded family, not proved (the pandas-bound bodies are outside the reach of the symbolic runtime); "
+          "the oracle in the driver states what the property means; kernels / lemmas that are proved are listed in the evidence.")
+CHECKS.update({
+    "C11": dict(cat="exploration", ref="DESIGN.md §4 C11", note=B_NOTE,
+        text="View contracts (selected compartments = denotation of the chain, synapses among them, dense local indices, [] and iteration = method form, mutations confined to the view's rows) evaluated against an independent denotation oracle "
+             "on an irregular 3-cell network for all chains of depth 1-3 over 13 index forms in local scope, global scope and with a scope switch; the loc digitisation is proved for all at in [0,1] (z3).",
+        technique=T_B + "; z3 lemma for loc"),
+    "C13": dict(cat="exploration", ref="DESIGN.md §4 C13", note=B_NOTE,
+        text="set_ncomp contract evaluated against modules built directly with n compartments (hand-built 5-branch cell with distinct per-branch properties, all branches x n, two-call sequences; SWC files against read_swc(ncomp=n)): tables, other branches, connectivity, group membership, solver structures equal; native one-step comparison on all backends.",
+        technique=T_B),
+    "C16": dict(cat="exploration", ref="DESIGN.md §4 C16", note=B_NOTE,
+        text="read_swc contract evaluated against an independent SWC oracle (sections, parent-child connectivity, path lengths under the documented conventions, radius interpolation at compartment centres, type groups, ncomp-independence) on generated files with single- and multi-point somata and binary neurite trees, plus the repository's SWC files; _split_branch_equally bounded-exhaustively.",
+        technique=T_B),
+    "C19": dict(cat="exploration", ref="DESIGN.md §4 C19", note=B_NOTE,
+        text="Representation invariant wf(module) and undo postconditions evaluated after every accepted operation of all histories of depth <= 2 and a stride of depth 3 over a 31-letter alphabet on a cell and a network; "
+             "for sampled reached states z3 proves (all values) that the real to_jax/get_all_*/step chain hands the solver exactly the membrane terms of the model displayed by the tables.",
+        technique=T_B + "; per reached state: symbolic execution of the real step + z3"),
+    "C20": dict(cat="exploration", ref="DESIGN.md §4 C20", note=B_NOTE,
+        text="Builder contracts (exactly the requested pairs, pre site = first compartment, post site in the intended cell, never raises) evaluated for populations over a 4-cell network with cells of different size, all boolean matrices up to a bound, and EVERY outcome of the binomial draw of sparse_connect (stubbed); "
+             "the fully_connect index layout is proved a bijection for ALL population sizes by z3 integer arithmetic.",
+        technique=T_B + "; unbounded z3 lemma for the fully_connect layout"),
+})
 NOT_APPLICABLE = {
     "C18": "pickle/deepcopy round-trips are decided by CPython's object-graph serialisation, not by any repository function; no pre/postcondition "
            "within reach of a deductive verifier can express it (DESIGN.md §5). The picklability clause of the module invariant is covered under C19 as bounded.",
